@@ -359,8 +359,156 @@ def install_remove_association(reg: Registry):
                      loops={0: LoopSpec(inv0, iter_src='left_field'), 1: LoopSpec(inv1, iter_src='right_field')}, props=('C05',)))
 
 
+def region_unchanged(o: H, h: H):
+    """every array agrees with o on every address allocated in o (objects allocated meanwhile are garbage)"""
+    x = A('x!ru')
+    return [('region.' + n, FA([x], z3.Implies(z3.And(x >= 0, x < o.alloc), z3.Select(h.arr[n], x) == z3.Select(o.arr[n], x)), [z3.Select(h.arr[n], x)]))
+            for n in h.arr if not z3.eq(h.arr[n], o.arr[n])]
+
+
+def install_validate(reg: Registry):
+    reg.add_exception('ModelException')
+    reg.add_exception('ModelAssociationException', 'ModelException')
+    reg.add_exception('DuplicateModelAssociationError', 'ModelException')
+
+    def assoc_typed(o, s):
+        """typing of a PJS association object handed in by the caller: two differently named array fields of asset references"""
+        k = z3.Const('k!at', Val)
+        return z3.And(o.cls(s) == class_id(ASSOC), o.f('lname', s) != o.f('rname', s),
+                      owned(o, o.f('lfield', s), s, 'lfield'), owned(o, o.f('rfield', s), s, 'rfield'),
+                      *[FA([k], z3.And(o.bag(o.f(f, s), k) >= 0, z3.Implies(o.bag(o.f(f, s), k) > 0, z3.And(is_VRef(k), o.cls(v_a(k)) == class_id(ASSET)))),
+                           [o.bag(o.f(f, s), k)]) for f in ('lfield', 'rfield')])
+
+    def V1(o, M, s): return o.cnt(o.f('associations', M), s) == 0
+
+    def V2(o, M, s):
+        x = A('x!v2')
+        return z3.And(FA([x], z3.Implies(in_l(o, s, x) > 0, is_asset(o, M, x)), [in_l(o, s, x)]),
+                      FA([x], z3.Implies(in_r(o, s, x) > 0, is_asset(o, M, x)), [in_r(o, s, x)]))
+
+    def V3(o, M, s):
+        x = A('x!v3')
+        return z3.And(FA([x], in_l(o, s, x) <= 1, [in_l(o, s, x)]), FA([x], in_r(o, s, x) <= 1, [in_r(o, s, x)]))
+
+    def V4(o, M, s):
+        x, y = A('x!v4'), A('y!v4')
+        return FA([x, y], z3.Implies(z3.And(in_l(o, s, x) > 0, in_r(o, s, y) > 0), z3.Not(reg.exists_link(o, M, o.f('clsname', s), x, y))),
+                  [(in_l(o, s, x), in_r(o, s, y))])
+
+    def valid(o, M, s):
+        return z3.And(V1(o, M, s), V2(o, M, s), V3(o, M, s), V4(o, M, s))
+    reg.assoc_valid, reg.assoc_typed = valid, assoc_typed
+
+    def requires(c):
+        return WFM(c.old, c.self) + [('association-typed', assoc_typed(c.old, c.association))]
+
+    def inv_members(c: LCtx):
+        # (both unrolled copies of) `for asset in getattr(association, field_name)`: every member seen so far is an asset of the model
+        o, h, M = c.old, c.h, c.self
+        x = A('x!vm')
+        return region_unchanged(o, h) + [('members-so-far', FA([x], z3.Implies(z3.Select(c.done, VRef(x)) > 0, is_asset(o, M, x)), [z3.Select(c.done, VRef(x))]))]
+
+    def inv_left(c: LCtx):
+        o, h, M, s = c.old, c.h, c.self, c.association
+        x, y = A('x!vl'), A('y!vl')
+        return region_unchanged(o, h) + [
+            ('no-link-so-far', FA([x, y], z3.Implies(z3.And(z3.Select(c.done, VRef(x)) > 0, in_r(o, s, y) > 0),
+                                                     z3.Not(reg.exists_link(o, M, o.f('clsname', s), x, y))), [(z3.Select(c.done, VRef(x)), in_r(o, s, y))]))]
+
+    def inv_right(c: LCtx):
+        o, h, M, s = c.old, c.h, c.self, c.association
+        y = A('y!vr')
+        la = c.local('left_asset').t
+        return region_unchanged(o, h) + [
+            ('no-link-so-far', FA([y], z3.Implies(z3.Select(c.done, VRef(y)) > 0, z3.Not(reg.exists_link(o, M, o.f('clsname', s), la, y))),
+                                  [z3.Select(c.done, VRef(y))]))]
+
+    def dup_cond(c):
+        o, M, s = c.old, c.self, c.association
+        return z3.Or(z3.Not(V1(o, M, s)), z3.And(V2(o, M, s), V3(o, M, s), z3.Not(V4(o, M, s))))
+
+    def inv_cond(c):
+        o, M, s = c.old, c.self, c.association
+        return z3.And(V1(o, M, s), z3.Or(z3.Not(V2(o, M, s)), z3.Not(V3(o, M, s))))
+
+    exc_ens = lambda c: region_unchanged(c.old, c.h)
+    reg.add(Contract(MM + ':Model._validate_association', {'self': Obj(MODEL), 'association': Obj(ASSOC)},
+                     requires=requires, ensures=lambda c: region_unchanged(c.old, c.h),
+                     raises={'DuplicateModelAssociationError': (dup_cond, exc_ens), 'ModelAssociationException': (inv_cond, exc_ens)},
+                     modifies=LIST_ARRAYS + ('D_has', 'D_size', 'cls', 'own_obj'), allocates=True,
+                     loops={1: LoopSpec(inv_members, iter_src='getattr(association, field_name)'),
+                            3: LoopSpec(inv_left, iter_src='getattr(association, left_field_name)'),
+                            4: LoopSpec(inv_right, iter_src='getattr(association, right_field_name)')},
+                     props=('C06', 'C05'),
+                     note='returns normally iff the association is new to the model, all its members are assets of the model, no asset repeats '
+                          'inside a field, and no pair (left member, right member) is already linked by an association of the same class'))
+
+
+def install_add_association(reg: Registry):
+    def BLo(o, x): return o.f('associations', x)
+
+    def Jp(o, h, s, x, tag):
+        """the back-reference list of x is either the old object, or a fresh owned list equal to the old one plus s (once)"""
+        r = A('r!' + tag)
+        kv = z3.Const('k!' + tag, Val)
+        B = h.f('associations', x)
+        fresh = z3.And(B >= o.alloc, B < h.alloc, owned(h, B, x, 'associations'), h.cls(B) == CLS_LIST,
+                       FA([r], h.cnt(B, r) == z3.If(r == s, 1, o.cnt(BLo(o, x), r)), [h.cnt(B, r)]),
+                       FA([kv], z3.And(h.bag(B, kv) >= 0, z3.Implies(h.bag(B, kv) > 0, is_VRef(kv))), [h.bag(B, kv)]))
+        return z3.Or(z3.And(B == BLo(o, x), h.cnt(B, s) == 0), fresh)
+
+    def inv(c: LCtx):
+        o, h, M, s = c.old, c.h, c.self, c.association
+        x = A('x!aj')
+        hl = c.hl
+        return [('old-lists', old_lists_unchanged(o, h)), ('own-cls', own_cls_unchanged(o, h)),
+                ('dicts', FA([x], z3.Implies(z3.And(x >= 0, x < o.alloc), z3.And(*[z3.Select(h.arr[n], x) == z3.Select(o.arr[n], x) for n in DICT_ARRAYS])),
+                             [z3.Select(h.arr['D_has'], x)])),
+                ('extras', z3.And(h.f('extras', s) == hl.f('extras', s), h.arr['f_extras'] == hl.arr['f_extras'])),
+                ('J', FA([x], z3.Implies(is_asset(o, M, x), Jp(o, h, s, x, 'aj')), [h.f('associations', x)])),
+                ('others', FA([x], z3.Implies(z3.Not(is_asset(o, M, x)), h.f('associations', x) == BLo(o, x)), [h.f('associations', x)])),
+                ('done', FA([x], z3.Implies(z3.And(is_asset(o, M, x), z3.Select(c.done, VRef(x)) > 0), h.cnt(h.f('associations', x), s) == 1),
+                            [z3.Select(c.done, VRef(x))])),
+                # an asset whose list was already replaced when this loop started (it sits in the other field too) keeps that list
+                ('stable', FA([x], z3.Implies(z3.And(is_asset(o, M, x), hl.f('associations', x) != BLo(o, x)), h.f('associations', x) == hl.f('associations', x)),
+                              [h.f('associations', x)])),
+                ('untouched', FA([x], z3.Implies(z3.And(z3.Select(c.done, VRef(x)) <= 0, hl.f('associations', x) == BLo(o, x)), h.f('associations', x) == BLo(o, x)),
+                                 [h.f('associations', x)]))]
+
+    def requires(c):
+        return WFM(c.old, c.self) + [('association-typed', reg.assoc_typed(c.old, c.association))]
+
+    def ensures(c):
+        o, h, M, s = c.old, c.h, c.self, c.association
+        x, r = A('x!ae'), A('r!ae')
+        kv = z3.Const('k!ae', Val)
+        SL, D = o.f('associations', M), o.f('_type_to_association', M)
+        key = VStr(o.f('clsname', s))
+        return WFM(h, M) + [
+            ('added', z3.And(h.cnt(SL, s) == 1, FA([r], z3.Implies(r != s, h.cnt(SL, r) == o.cnt(SL, r)), [h.cnt(SL, r)]))),
+            ('appended-last', z3.And(h.len(SL) == o.len(SL) + 1, h.at(SL, o.len(SL)) == VRef(s))),
+            ('backrefs', FA([x, r], z3.Implies(is_asset(o, M, x), h.cnt(h.f('associations', x), r) ==
+                                               z3.If(r == s, z3.If(z3.Or(in_l(o, s, x) > 0, in_r(o, s, x) > 0), 1, 0), o.cnt(BLo(o, x), r))),
+                            [h.cnt(h.f('associations', x), r)])),
+            ('fields-untouched', z3.And(list_unchanged(o, h, o.f('lfield', s)), list_unchanged(o, h, o.f('rfield', s)),
+                                        h.f('lfield', s) == o.f('lfield', s), h.f('rfield', s) == o.f('rfield', s))),
+            ('extras-empty', z3.And(h.f('extras', s) >= o.alloc, h.size(h.f('extras', s)) == 0)),
+            ('frame.buckets', FA([kv], z3.Implies(kv != key, z3.And(h.has(D, kv) == o.has(D, kv), h.val(D, kv) == o.val(D, kv))), [h.has(D, kv)])),
+            ('frame.sets', z3.And(*[z3.And(z3.Select(h.arr['D_has'], o.f(f, M)) == z3.Select(o.arr['D_has'], o.f(f, M))) for f in ('asset_ids', 'asset_names')])),
+            ('frame.lists', lists_unchanged_where(o, h, lambda l: z3.And(l != SL, z3.Or(z3.Not(o.has(D, key)), l != v_a(o.val(D, key)))), 'af')),
+        ]
+
+    reg.add(Contract(MM + ':Model.add_association', {'self': Obj(MODEL), 'association': Obj(ASSOC)},
+                     requires=requires, ensures=ensures,
+                     raises={'ModelException': (lambda c: z3.Not(reg.assoc_valid(c.old, c.self, c.association)), lambda c: region_unchanged(c.old, c.h))},
+                     modifies=LIST_ARRAYS + DICT_ARRAYS + ('cls', 'own_obj', 'own_fld', 'f_associations', 'f_extras'), allocates=True,
+                     loops={1: LoopSpec(inv, iter_src='getattr(association, field_name)')}, props=('C05', 'C06')))
+
+
 def install(reg: Registry):
     install_attachment(reg)
     install_attackers(reg)
     install_add_asset(reg)
     install_remove_association(reg)
+    install_validate(reg)
+    install_add_association(reg)
